@@ -56,16 +56,16 @@ var keyShape = []string{"only-caller:(*httpserver.replacer).Replace", "caller-ar
 
 // Proof-carrying exceptions for C19 (and C13 R3): each names the manual argument and the premises re-checked on every run.
 var c19Exceptions = map[string]e5Exception{
-	"(*httpserver.replacer).getSubstitution|index:key[1]": {"the key is always unescapeBraces(s[idxStart:idxEnd+1]) with s[idxStart]=='{' and s[idxEnd]=='}' both unescaped: unescaping keeps the first and last byte, so len(key) >= 2", keyShape},
-	"(*httpserver.replacer).getSubstitution|slice:key[2:len(key)-1]":   {"len(key) >= 2 and key ends in '}' while key[1] is '>' here, hence len(key) >= 3", append([]string{"guard:key[1]"}, keyShape...)},
-	"(*httpserver.replacer).getSubstitution|slice:key[2:len(key)-1]#2": {"as above with key[1] == '<'", append([]string{"guard:key[1]"}, keyShape...)},
-	"(*httpserver.replacer).getSubstitution|slice:key[2:len(key)-1]#3": {"as above with key[1] == '~'", append([]string{"guard:key[1]"}, keyShape...)},
-	"(*httpserver.replacer).getSubstitution|slice:key[2:len(key)-1]#4": {"as above with key[1] == '?'", append([]string{"guard:key[1]"}, keyShape...)},
-	"(*httpserver.replacer).getSubstitution|slice:key[2:len(key)-1]#5": {"as above with key[1] == '$'", append([]string{"guard:key[1]"}, keyShape...)},
-	"(*httpserver.replacer).getSubstitution|slice:key[6:len(key)-1]":   {"key has the prefix \"{label\" (6 bytes) and ends in '}', which is not part of the prefix, hence len(key) >= 7", append([]string{"guard:strings.HasPrefix(key, \"{label\")=true"}, keyShape...)},
+	"(*httpserver.replacer).getSubstitution|index:key[1]":                                         {"the key is always unescapeBraces(s[idxStart:idxEnd+1]) with s[idxStart]=='{' and s[idxEnd]=='}' both unescaped: unescaping keeps the first and last byte, so len(key) >= 2", keyShape},
+	"(*httpserver.replacer).getSubstitution|slice:key[2:len(key)-1]":                              {"len(key) >= 2 and key ends in '}' while key[1] is '>' here, hence len(key) >= 3", append([]string{"guard:key[1]"}, keyShape...)},
+	"(*httpserver.replacer).getSubstitution|slice:key[2:len(key)-1]#2":                            {"as above with key[1] == '<'", append([]string{"guard:key[1]"}, keyShape...)},
+	"(*httpserver.replacer).getSubstitution|slice:key[2:len(key)-1]#3":                            {"as above with key[1] == '~'", append([]string{"guard:key[1]"}, keyShape...)},
+	"(*httpserver.replacer).getSubstitution|slice:key[2:len(key)-1]#4":                            {"as above with key[1] == '?'", append([]string{"guard:key[1]"}, keyShape...)},
+	"(*httpserver.replacer).getSubstitution|slice:key[2:len(key)-1]#5":                            {"as above with key[1] == '$'", append([]string{"guard:key[1]"}, keyShape...)},
+	"(*httpserver.replacer).getSubstitution|slice:key[6:len(key)-1]":                              {"key has the prefix \"{label\" (6 bytes) and ends in '}', which is not part of the prefix, hence len(key) >= 7", append([]string{"guard:strings.HasPrefix(key, \"{label\")=true"}, keyShape...)},
 	"(*fastcgi.record).read|slice:rec.rbuf[:(int(rec.h.ContentLength)+int(rec.h.PaddingLength))]": {"n = int(ContentLength)+int(PaddingLength) computed in int; rec.rbuf was just replaced by make([]byte, n) unless len(rec.rbuf) >= n already (conditional-update idiom: no single dominating guard)", []string{"ssa:(int(rec.h.ContentLength)+int(rec.h.PaddingLength))"}},
-	"(*fastcgi.record).read|slice:rec.rbuf[:int(rec.h.ContentLength)]": {"int(ContentLength) <= n <= len(rec.rbuf) by the line above (both summands are non-negative and added in int)", []string{"ssa:int(rec.h.ContentLength)"}},
-	"push.parseLinkHeader|slice:link[strings.Index(link,\"<\")+1:strings.Index(link,\">\")]": {"li and ri are positions of different bytes ('<' and '>'), so ri >= li implies ri >= li+1", []string{"guard:\">\") < strings.Index(", "guard:\"<\") == -1)=false", "guard:\">\") == -1)=false"}},
+	"(*fastcgi.record).read|slice:rec.rbuf[:int(rec.h.ContentLength)]":                            {"int(ContentLength) <= n <= len(rec.rbuf) by the line above (both summands are non-negative and added in int)", []string{"ssa:int(rec.h.ContentLength)"}},
+	"push.parseLinkHeader|slice:link[strings.Index(link,\"<\")+1:strings.Index(link,\">\")]":      {"li and ri are positions of different bytes ('<' and '>'), so ri >= li implies ri >= li+1", []string{"guard:\">\") < strings.Index(", "guard:\"<\") == -1)=false", "guard:\">\") == -1)=false"}},
 }
 
 func runC19(r *Report, p *Program) {
